@@ -5,7 +5,7 @@ namespace Asts.C02p
 open Asts Asts.L1c
 
 /-- the class: normal, settled, Parallel -/
-def ParK (h : Hashing) (j : SyncIn) : Prop := NSC h j ∧ j.view.parallel = true
+def ParK (h : Hashing) (j : SyncIn) : Prop := NSC h j ∧ j.view.parallel = true ∧ PartOk j.view
 
 section
 variable {h : Hashing} {j : SyncIn}
@@ -30,36 +30,36 @@ theorem par_recon_acts (hs : NSC h j) (hpar : j.view.parallel = true) :
     exact (hn.pods c hc).2.2.2.2.2.1
   exact recon_acts j.view _ _ _ (replicasOf j.view) hn.spec.rep hpar hn.spec.del (bOf_le hn) hord
 
-theorem par_facts (hs : NSC h j) :
+theorem par_facts (hs : NSC h j) (hpart : PartOk j.view) :
     ActFacts j.view hs.norm.curRev.name hs.norm.updRev.name (bOf j) (EOf j) j.pods
       (actsOf j.view hs.norm.curRev.name hs.norm.updRev.name (bOf j) (EOf j) j.pods) := by
   have hn := hs.norm
   have hctx := hs.ctx
   have hb0 := bOf_nonneg hn
   have hE := EOf_nonneg hn
-  refine ⟨fun id hid => delHits_fresh hctx hn.part hid, createsOf_actsOf_nodup _ _ _ _ _ _, ?_, ?_, ?_⟩
+  refine ⟨fun id hid => delHits_fresh hctx hpart hid, createsOf_actsOf_nodup _ _ _ _ _ _, ?_, ?_, ?_⟩
   · intro o rev hcr
     obtain ⟨hr, hrev, hcase⟩ := (create_mem_iff hctx).1 hcr
     refine ⟨hr, hrev, ?_⟩
     rcases hcase with hnone | ⟨c, hcm, hco, hfs⟩
     · exact Or.inl hnone
-    · exact Or.inr ⟨c, hcm, hco, hfs, (delHits_iff hctx hn.part hb0 hE hcm).2 (Or.inl ⟨by rw [hco]; exact hr, hfs⟩)⟩
+    · exact Or.inr ⟨c, hcm, hco, hfs, (delHits_iff hctx hpart hb0 hE hcm).2 (Or.inl ⟨by rw [hco]; exact hr, hfs⟩)⟩
   · intro c hcm _ hfs hr
     exact ⟨_, (create_mem_iff hctx).2 ⟨hr, rfl, Or.inr ⟨c, hcm, rfl, hfs⟩⟩⟩
   · intro c hcm hd hfs hr
-    rcases (delHits_iff hctx hn.part hb0 hE hcm).1 hd with ⟨_, h2⟩ | h2 | h2
+    rcases (delHits_iff hctx hpart hb0 hE hcm).1 hd with ⟨_, h2⟩ | h2 | h2
     · rw [hfs] at h2; cases h2
     · rw [hr] at h2; cases h2
-    · obtain ⟨c', hc', _, hco, _, _, hrev, hpt, hnod⟩ := target_is_pod hctx hn.part h2
+    · obtain ⟨c', hc', _, hco, _, _, hrev, hpt, hnod⟩ := target_is_pod hctx hpart h2
       have : c' = c := hctx.ord_inj hc' hcm hco
       subst this
       exact ⟨hn.spec.strat.resolve_right hnod, hpt, hrev⟩
 
-theorem par_pol (hs : NSC h j) (hpar : j.view.parallel = true) : Pol hs.norm :=
-  ⟨par_recon_ok hs hpar, by rw [par_recon_acts hs hpar]; exact par_facts hs⟩
+theorem par_pol (hs : NSC h j) (hpar : j.view.parallel = true) (hpart : PartOk j.view) : Pol hs.norm :=
+  Pol.of_facts (par_recon_ok hs hpar) (by rw [par_recon_acts hs hpar]; exact par_facts hs hpart)
 
 /-- when every desired ordinal holds a live pod and one of them still has to be replaced, the update walk takes one down -/
-theorem target_exists (hs : NSC h j)
+theorem target_exists (hs : NSC h j) (hpart : PartOk j.view)
     (hall : ∀ o, inRange (bOf j) (EOf j) o = true → ∃ c ∈ j.pods, c.pod.ord = o ∧ c.pod.fs = false)
     {c0 : CPod} (hc0 : c0 ∈ j.pods) (hr0 : inRange (bOf j) (EOf j) c0.pod.ord = true) (hroll : j.view.strat = .rolling)
     (hpt : partOf j.view ≤ c0.pod.ord) (hrev : c0.pod.rev ≠ hs.norm.updRev.name) :
@@ -111,7 +111,7 @@ theorem target_exists (hs : NSC h j)
   | none => rw [ht] at hsome; cases hsome
   | some tq =>
     obtain ⟨t, q⟩ := tq
-    obtain ⟨c, hcm, hcp, hco, _⟩ := target_is_pod hctx hn.part ht
+    obtain ⟨c, hcm, hcp, hco, _⟩ := target_is_pod hctx hpart ht
     refine ⟨c, hcm, ?_⟩
     unfold IsTarget
     rw [ht, hco, hcp]
@@ -170,7 +170,7 @@ theorem mu_pos_cases (hs : NSC h j) (hpos : 0 < muPods j) :
         · exact Or.inr (Or.inr (Or.inl ⟨c, hcm, hr, hfs', by simpa using hid⟩))
     · exact Or.inl ⟨o, hr, fun c hcm hco => hat ⟨c, hcm, hco⟩⟩
 
-theorem par_progress (hs : NSC h j) (hpar : j.view.parallel = true) (hpos : 0 < muPods j) :
+theorem par_progress (hs : NSC h j) (hpar : j.view.parallel = true) (hpart : PartOk j.view) (hpos : 0 < muPods j) :
     Event (bOf j) (EOf j) j.pods hs.norm.recon.1.acts := by
   have hn := hs.norm
   have hctx := hs.ctx
@@ -183,16 +183,16 @@ theorem par_progress (hs : NSC h j) (hpar : j.view.parallel = true) (hpos : 0 < 
     fun o hr hnone => Or.inl ⟨o, _, (create_mem_iff hctx).2 ⟨hr, rfl, Or.inl hnone⟩⟩
   have hfsE : ∀ c ∈ j.pods, inRange (bOf j) (EOf j) c.pod.ord = true → c.pod.fs = true →
       Event (bOf j) (EOf j) j.pods (actsOf j.view hn.curRev.name hn.updRev.name (bOf j) (EOf j) j.pods) :=
-    fun c hcm hr hfs => Or.inr (Or.inl ⟨c, hcm, (delHits_iff hctx hn.part hb0 hE hcm).2 (Or.inl ⟨hr, hfs⟩)⟩)
+    fun c hcm hr hfs => Or.inr (Or.inl ⟨c, hcm, (delHits_iff hctx hpart hb0 hE hcm).2 (Or.inl ⟨hr, hfs⟩)⟩)
   rcases mu_pos_cases hs hpos with ⟨c, hcm, hr⟩ | ⟨o, hr, hnone⟩ | ⟨c, hcm, hr, hfs⟩ | ⟨c, hcm, hr, hfs, hid⟩ |
       ⟨c, hcm, hr, hfs, hroll, hpt, hrev⟩
-  · exact Or.inr (Or.inl ⟨c, hcm, (delHits_iff hctx hn.part hb0 hE hcm).2 (Or.inr (Or.inl hr))⟩)
+  · exact Or.inr (Or.inl ⟨c, hcm, (delHits_iff hctx hpart hb0 hE hcm).2 (Or.inr (Or.inl hr))⟩)
   · exact hvac o hr hnone
   · exact hfsE c hcm hr hfs
   · exact Or.inr (Or.inr ⟨c, hcm, hr, hfs, hid, update_mem hctx hcm hr hfs hid⟩)
   · by_cases hall : ∀ o, inRange (bOf j) (EOf j) o = true → ∃ c ∈ j.pods, c.pod.ord = o ∧ c.pod.fs = false
-    · obtain ⟨c', hc', htg⟩ := target_exists hs hall hcm hr hroll hpt hrev
-      exact Or.inr (Or.inl ⟨c', hc', (delHits_iff hctx hn.part hb0 hE hc').2 (Or.inr (Or.inr htg))⟩)
+    · obtain ⟨c', hc', htg⟩ := target_exists hs hpart hall hcm hr hroll hpt hrev
+      exact Or.inr (Or.inl ⟨c', hc', (delHits_iff hctx hpart hb0 hE hc').2 (Or.inr (Or.inr htg))⟩)
     · push_neg at hall
       obtain ⟨o, hro, hbad⟩ := hall
       by_cases hat : ∃ c ∈ j.pods, c.pod.ord = o
@@ -206,8 +206,11 @@ end
 /-- **the Parallel policy is a policy class** -/
 theorem par_class (h : Hashing) : PolicyClass h (ParK h) where
   ns := fun _ hk => hk.1
-  pol := fun _ hk => par_pol hk.1 hk.2
-  next := fun j hk => ⟨nextW_ns hk.1 (par_pol hk.1 hk.2), by rw [nextW_view hk.1 (par_pol hk.1 hk.2)]; exact hk.2⟩
-  progress := fun _ hk hpos => par_progress hk.1 hk.2 hpos
+  part := fun _ hk => hk.2.2
+  pol := fun _ hk => par_pol hk.1 hk.2.1 hk.2.2
+  facts := fun _ hk => by rw [par_recon_acts hk.1 hk.2.1]; exact par_facts hk.1 hk.2.2
+  next := fun j hk => ⟨nextW_ns hk.1 (par_pol hk.1 hk.2.1 hk.2.2), by rw [nextW_view hk.1 (par_pol hk.1 hk.2.1 hk.2.2)]; exact hk.2.1,
+    by rw [nextW_view hk.1 (par_pol hk.1 hk.2.1 hk.2.2)]; exact hk.2.2⟩
+  progress := fun _ hk hpos => par_progress hk.1 hk.2.1 hk.2.2 hpos
 
 end Asts.C02p
